@@ -45,41 +45,41 @@ def PropC10 : Prop :=
 /-- **C10, one operation, every single-fault placement** (partial: replace faults of D13 excluded).
 Running any operation from a state satisfying the invariant, with the single fault placed at ANY
 step address (or nowhere), ends in a state satisfying the invariant. -/
-theorem consistent_step_partial (op : Op R) (flt : Option Addr) (s : State R)
-    (h : Inv s) (hargs : ArgsOK s op) (hex : ¬ Excluded op flt) : Inv (after op flt s) := by
+theorem consistent_step_partial (op : Op R) (flt : Option Addr) (s : State R) (cancel : Option (Addr × Bool))
+    (h : Inv s) (hargs : ArgsOK s op) (hex : ¬ Excluded op flt) : Inv (after op flt s cancel) := by
   unfold after run
   cases op with
-  | create a => exact create_inv a hargs flt { st := s } ⟨h, rfl, rfl⟩
-  | remove f g => exact pres_remove f g flt { st := s } h
-  | dissociate f g => exact pres_dissociate f g flt { st := s } h
-  | realloc n id ans => exact realloc_inv n id ans flt { st := s } h hargs
+  | create a => exact create_inv a hargs flt { st := s, cancel := cancel } ⟨h, rfl, rfl⟩
+  | remove f g => exact pres_remove f g flt { st := s, cancel := cancel } h
+  | dissociate f g => exact pres_dissociate f g flt { st := s, cancel := cancel } h
+  | realloc n id ans => exact realloc_inv n id ans flt { st := s, cancel := cancel } h hargs
   | replace n id =>
     have hG : ReplaceGuard flt := Classical.not_not.mp hex
-    exact replace_inv n id flt hG { st := s } h
-  | setNode n c => exact pres_setNode n c true flt { st := s } h
-  | addNode n c => exact (pres_addNode n c flt { st := s } ⟨h, hargs⟩).1
-  | removeNode n => exact pres_removeNode n flt { st := s } h
-  | nodeResource n fix => exact pres_nodeResource n fix flt { st := s } h
+    exact replace_inv n id flt hG { st := s, cancel := cancel } h
+  | setNode n c => exact pres_setNode n c true flt { st := s, cancel := cancel } h
+  | addNode n c => exact (pres_addNode n c flt { st := s, cancel := cancel } ⟨h, hargs⟩).1
+  | removeNode n => exact pres_removeNode n flt { st := s, cancel := cancel } h
+  | nodeResource n fix => exact pres_nodeResource n fix flt { st := s, cancel := cancel } h
 
 /-- a history is admissible: every operation's arguments are fine in the state it runs in and no
 excluded fault is used -/
-def HistOK : State R → List (Op R × Option Addr) → Prop
+def HistOK : State R → List (Op R × Option Addr × Option (Addr × Bool)) → Prop
   | _, [] => True
-  | s, (op, flt) :: rest => ArgsOK s op ∧ ¬ Excluded op flt ∧ HistOK (after op flt s) rest
+  | s, (op, flt, cn) :: rest => ArgsOK s op ∧ ¬ Excluded op flt ∧ HistOK (after op flt s cn) rest
 
 /-- **C10, every history**: induction over the operation list. -/
-theorem consistent_run_partial (h : List (Op R × Option Addr)) : ∀ (s : State R), Inv s → HistOK s h →
+theorem consistent_run_partial (h : List (Op R × Option Addr × Option (Addr × Bool))) : ∀ (s : State R), Inv s → HistOK s h →
     Inv (runHistory h s) := by
   induction h with
   | nil => intro s hs _; exact hs
   | cons x rest ih =>
-    obtain ⟨op, flt⟩ := x
+    obtain ⟨op, flt, cn⟩ := x
     intro s hs hok
-    exact ih _ (consistent_step_partial op flt s hs hok.1 hok.2.1) hok.2.2
+    exact ih _ (consistent_step_partial op flt s cn hs hok.1 hok.2.1) hok.2.2
 
 /-- corollary in the words of the property: usage = Σ recorded workloads on every node, after
 every admissible history -/
-theorem usage_eq_sum_after_history (h : List (Op R × Option Addr)) (s : State R) (hs : Inv s)
+theorem usage_eq_sum_after_history (h : List (Op R × Option Addr × Option (Addr × Bool))) (s : State R) (hs : Inv s)
     (hok : HistOK s h) : ∀ n, (runHistory h s).usage n = load (runHistory h s) n :=
   (consistent_run_partial h s hs hok).2.2
 
@@ -105,28 +105,28 @@ every other such section of the same pod. Create's deploy phase runs outside the
 usage and only adds records with fresh ids; it is treated as part of create's block. -/
 
 /-- an operation with a fault plan, as an atomic block -/
-def block (p : Op R × Option Addr) : State R → State R := fun s => after p.1 p.2 s
+def block (p : Op R × Option Addr × Option (Addr × Bool)) : State R → State R := fun s => after p.1 p.2.1 s p.2.2
 
 /-- a block whose side conditions hold in every state and whose fault is not excluded -/
-def BlockOK (p : Op R × Option Addr) : Prop := (∀ s, ArgsOK s p.1) ∧ ¬ Excluded p.1 p.2
+def BlockOK (p : Op R × Option Addr × Option (Addr × Bool)) : Prop := (∀ s, ArgsOK s p.1) ∧ ¬ Excluded p.1 p.2.1
 
 /-- **C10 under interleaving**: two clients issue operation sequences `xs`, `ys`; whatever way the
 blocks interleave (each client's own order kept), the invariant survives. -/
-theorem consistent_concurrent_partial (xs ys : List (Op R × Option Addr))
+theorem consistent_concurrent_partial (xs ys : List (Op R × Option Addr × Option (Addr × Bool)))
     (hx : ∀ p ∈ xs, BlockOK p) (hy : ∀ p ∈ ys, BlockOK p)
     (sched : List (State R → State R)) (h : sched ∈ merges (xs.map block) (ys.map block))
     (s : State R) (hs : Inv s) : Inv (runBlocks sched s) := by
   apply pres_of_interleaving Inv (xs.map block) (ys.map block) _ _ sched h s hs
   · intro f hf s' hs'
     obtain ⟨p, hp, rfl⟩ := List.mem_map.mp hf
-    exact consistent_step_partial p.1 p.2 s' hs' ((hx p hp).1 s') (hx p hp).2
+    exact consistent_step_partial p.1 p.2.1 s' p.2.2 hs' ((hx p hp).1 s') (hx p hp).2
   · intro f hf s' hs'
     obtain ⟨p, hp, rfl⟩ := List.mem_map.mp hf
-    exact consistent_step_partial p.1 p.2 s' hs' ((hy p hp).1 s') (hy p hp).2
+    exact consistent_step_partial p.1 p.2.1 s' p.2.2 hs' ((hy p hp).1 s') (hy p hp).2
 
 /-- two operations started together end in one of the two sequential orders (what the harness'
 concurrent stream compares the real post-state with) -/
-theorem two_ops_serialise (p q : Op R × Option Addr) (sched : List (State R → State R))
+theorem two_ops_serialise (p q : Op R × Option Addr × Option (Addr × Bool)) (sched : List (State R → State R))
     (h : sched ∈ merges [block p] [block q]) (s : State R) :
     runBlocks sched s = block q (block p s) ∨ runBlocks sched s = block p (block q s) :=
   podlock_serialises (block p) (block q) sched h s
@@ -169,8 +169,8 @@ theorem consistent_step_counterexample : ¬ PropC10 := by
 /-- the hypotheses of the theorems are satisfiable by a non-trivial state and history: a realloc of
 the witness workload hit by a store failure, followed by a two-instance create hit by an engine failure -/
 example : HistOK witness
-    [(.realloc "n" 1 (some (3, 8)), some ⟨"storeUpdateWorkload", "n", 0⟩),
-     (.create { plan := [("n", [2, 1])] }, some ⟨"engineStart", "n", 1⟩)] := by
+    [(.realloc "n" 1 (some (3, 8)), some ⟨"storeUpdateWorkload", "n", 0⟩, none),
+     (.create { plan := [("n", [2, 1])] }, none, some (⟨"storeAddWorkload", "n", 0⟩, true))] := by
   refine ⟨?_, fun h => h, ?_, fun h => h, trivial⟩
   · intro w hw hid delta newRes hans
     simp only [Option.some.injEq, Prod.mk.injEq] at hans
